@@ -63,6 +63,15 @@ BASE = """module m
   interface impl_t
     module procedure make_impl
   end interface impl_t
+  interface
+    subroutine ext_two(a, b, c)
+      import :: base_t
+      import :: impl_t, real64
+      class(base_t) :: a
+      type(impl_t) :: b
+      real(real64) :: c
+    end subroutine ext_two
+  end interface
   type, extends(base_t) :: impl_t
     integer :: extra
   contains
@@ -98,6 +107,12 @@ contains
     end function helper
   end subroutine work
 end module m
+subroutine tail(cb)
+  use m; implicit none
+  real CB
+  external cb
+  counter = 0
+end subroutine tail
 program main
   use m
   implicit none
@@ -281,6 +296,35 @@ def seeded_layout(v: int, case: int, eol: int, trail: bool) -> bool:
                 break
     tock("seeded_layout")
     return msg is None
+
+
+def resave(v: int, n: int) -> bool:
+    """diagnostics are a function of the text: publishing them again (n further saves of the unchanged file, with
+    line-length limits set) gives the same list as the first time, for the base program and every defect variant
+    pre: 0 <= v <= NV and 1 <= n <= 3 and v % NPART == PART
+    post: _
+    """
+    tick("resave")
+    v, n = conc(v, 0, NV), conc(n, 1, 3)
+    ok = True
+    with NoTracing():
+        lines = BL if v == NV else VARS[v][1]
+        first, err = diags_of(lines, 0)
+        srv = SRV
+        for _ in range(n):
+            srv.handle({"jsonrpc": "2.0", "method": "textDocument/didSave", "params": {"textDocument": {"uri": "file://" + f"{R}/prog.f90"}}})
+        pub = [o for o in srv.conn.out if o[0] == "notif" and o[1] == "textDocument/publishDiagnostics" and o[2]["uri"].endswith("prog.f90")]
+        if err or not pub:
+            ok = False
+            FAIL.append(f"resave: {err}")
+        else:
+            last = pub[-1][2]["diagnostics"]
+            key = lambda d: (d["range"]["start"]["line"], d["severity"], d["message"])  # noqa: E731
+            if sorted(map(key, last)) != sorted(map(key, first)):
+                ok = False
+                FAIL.append(f"variant {v}: after {n} more saves {sorted(map(key, last))} first {sorted(map(key, first))}")
+    tock("resave")
+    return ok
 
 
 def valid(gap: int, case: int) -> bool:
